@@ -549,7 +549,7 @@ func drawExchange(t *rapid.T) exchangeBatch {
 	cfgs := namedConfigs()
 	for i := 0; i < 10; i++ {
 		d := specgen.GenExchangeDoc(t, specgen.ExchangeOptions{Formats: rapid.Bool().Draw(t, "formats"), TimeFormat: "date-time",
-			Validators: rapid.Bool().Draw(t, "validators"), Defaults: rapid.Bool().Draw(t, "defaults"), Docs: rapid.Bool().Draw(t, "docs"), SharedParamObjects: true})
+			Validators: rapid.Bool().Draw(t, "validators"), Defaults: rapid.Bool().Draw(t, "defaults"), Docs: rapid.Bool().Draw(t, "docs"), SharedParamObjects: true, PropDefaults: true})
 		m := d.RenderMap()
 		paths, _ := m["paths"].(map[string]any)
 		var keys []string
